@@ -69,6 +69,7 @@ type caseT struct {
 	Unreadable bool // list: the process (an unprivileged user) may not read the plugin root, which holds real plugin directories
 	LinkedRoot bool // list: the plugin root itself is reached through a symbolic link (libexec on another volume, a dotfile manager)
 	Alone      bool // uninstall: the named plugin is the only entry of the plugin root (the root itself is not <root>/<name>)
+	Special    bool // list: the root also holds a pipe, a socket and a dot-named pipe (cases of their own: a List that OPENS its entries blocks on a pipe)
 	NonExec    bool // install from a directory whose only notation-* file lacks the execute bit (the manager sets it - for an acceptable name)
 }
 
@@ -156,7 +157,8 @@ func main() {
 				cases = append(cases, caseT{Op: "install", Name: fn, Depth: depth, Source: "file", Overwrite: ow}, caseT{Op: "install", Name: fn, Depth: depth, Source: "dir", Overwrite: ow})
 			}
 		}
-		cases = append(cases, caseT{Op: "list", Depth: depth}, caseT{Op: "list", Depth: depth, LinkedRoot: true}, caseT{Op: "list", Depth: depth, Unreadable: true})
+		cases = append(cases, caseT{Op: "list", Depth: depth}, caseT{Op: "list", Depth: depth, LinkedRoot: true}, caseT{Op: "list", Depth: depth, Unreadable: true},
+			caseT{Op: "list", Depth: depth, Special: true}, caseT{Op: "list", Depth: depth, Special: true, LinkedRoot: true})
 		for _, ow := range []bool{false, true} {
 			cases = append(cases, caseT{Op: "install", Name: "linkedplug", Depth: depth, Source: "file", Overwrite: ow, LinkOut: true}, caseT{Op: "install", Name: "linkedplug", Depth: depth, Source: "dir", Overwrite: ow, LinkOut: true})
 		}
@@ -365,9 +367,11 @@ func main() {
 			}
 			os.WriteFile(J(filepath.Join(root, "file")), []byte("f"), 0o644)
 			// special files are not directories either (a pipe or socket an agent left behind), and real plugins sort after them
-			syscall.Mkfifo(J(filepath.Join(root, "agent.pipe")), 0o644)
-			syscall.Mknod(J(filepath.Join(root, "b.sock")), syscall.S_IFSOCK|0o644, 0)
-			syscall.Mkfifo(J(filepath.Join(root, ".a-pipe")), 0o644)
+			if c.Special {
+				syscall.Mkfifo(J(filepath.Join(root, "agent.pipe")), 0o644)
+				syscall.Mknod(J(filepath.Join(root, "b.sock")), syscall.S_IFSOCK|0o644, 0)
+				syscall.Mkfifo(J(filepath.Join(root, ".a-pipe")), 0o644)
+			}
 			os.Symlink(filepath.Join(root, "good"), J(filepath.Join(root, "ln-dir")))
 			os.Symlink(filepath.Join(root, "file"), J(filepath.Join(root, "ln-file")))
 			os.Symlink("/does/not/exist", J(filepath.Join(root, "ln-dangling")))
@@ -412,7 +416,7 @@ func main() {
 			go func() { out, runErr = cmd.Output(); close(done) }()
 			select {
 			case <-done:
-			case <-time.After(2 * time.Minute):
+			case <-time.After(map[bool]time.Duration{false: 2 * time.Minute, true: 45 * time.Second}[c.Special]):
 				cmd.Process.Kill()
 				r.Inconclusive(fmt.Sprintf("jailed case %d hit the watchdog", ci))
 				return
